@@ -659,6 +659,8 @@ def hash_order(rep, lib, rid="C11-HASH-ORDER"):
     for name, b in sorted(lib.bodies.items()):
         if name.startswith(("<Cli as clap", "<output_style::")) and "clap::" in name:
             continue
+        if name.split(" as ")[0].lstrip("<").startswith(("build_docs::", "selection_help::")):
+            continue        # the documentation generator (feature create-docs) is not part of a run over data
         for c in b.calls:
             full = c.t.get("callee_full") or c.full or ""
             if not _HASH_ITER.search(full):
